@@ -70,6 +70,9 @@ impl GC {
             return;
         }
 
+        #[cfg(feature = "verif")]
+        let managed_before = self.objects.len();
+
         self.mark_bitmap.clear();
 
         // Mark all reachable objects
@@ -81,6 +84,18 @@ impl GC {
 
         // Sweep all unreachable objects
         self.sweep();
+
+        #[cfg(feature = "verif")]
+        crate::verif::on_gc_run(roots, managed_before, &self.objects);
+    }
+
+    /// Addresses of the managed objects in internal order, and the mark bits (verification harness only).
+    #[cfg(feature = "verif")]
+    pub fn verif_state(&self) -> (Vec<usize>, Vec<bool>) {
+        (
+            self.objects.iter().map(|o| o.as_ptr() as usize).collect(),
+            self.mark_bitmap.iter().map(|b| *b).collect(),
+        )
     }
 
     /// Sweep all unmarked objects
